@@ -43,6 +43,10 @@ pub assume_specification [char::is_ascii_digit] (c: &char) -> (r: bool) ensures 
 pub assume_specification [char::is_ascii_alphabetic] (c: &char) -> (r: bool) ensures r == (ascii_upper_c(*c) || ascii_lower_c(*c));
 pub assume_specification [char::to_ascii_lowercase] (c: &char) -> (r: char) ensures r == ascii_lower(*c);
 
+/// byte length of the UTF-8 encoding (uninterpreted; only that it is a function of the text is used)
+pub uninterp spec fn utf8_len(s: Seq<char>) -> nat;
+pub assume_specification [String::len] (s: &String) -> (r: usize) ensures r == utf8_len(s@);
+
 // ---- string wrappers (R3): body IS the original call; only the contract is assumed ----
 #[verifier::external_body]
 pub fn x_make_ascii_lowercase(s: &mut str)
